@@ -212,8 +212,8 @@ fn path_case(ctx: &mut Ctx, r: &mut Rng, long: bool, for_sim: bool) -> Option<Bu
     let o = NetOpts {
         n_links: r.usize(1, if long { 6 } else { 4 }),
         grid: if for_sim { 1.0 } else { *r.pick(&[0.5, 1.0, 8.0]) },
-        len_lo: if for_sim { 1500 } else { 4 },
-        len_hi: if for_sim { 6000 } else { *r.pick(&[64, 2000, 20000]) },
+        len_lo: if for_sim { 700 } else { 4 },
+        len_hi: if for_sim { 3500 } else { *r.pick(&[64, 2000, 20000]) },
         max_elev_pts: if for_sim { 4 } else { 6 },
         max_grade: if for_sim { 0.012 } else { 0.03 },
         max_speed_limits: if for_sim { 2 } else { 3 },
@@ -372,7 +372,7 @@ fn make_res(r: &mut Rng, tpc: &PathTpc, st: &TrainState) -> Option<TrainRes> {
 fn gen_train_consist(r: &mut Rng) -> Consist {
     let n = r.usize(2, 5);
     let locos: Vec<Locomotive> = (0..n).map(|_| {
-        if r.chance(0.7) {
+        if r.chance(0.9) {
             let mut l = if r.chance(0.6) { Locomotive::default() } else { Locomotive::default_battery_electric_loco() };
             l.set_save_interval(None);
             l
@@ -523,6 +523,12 @@ fn set_speed_case(ctx: &mut Ctx, r: &mut Rng, steps: usize) {
     let _ = e_whl;
     // negative first sample / negative later sample must be rejected
     let mut neg = SetSpeedTrainSim::new(pre_consist(&sim), st0, SpeedTrace::new(vec![0.0, 1.0, 2.0], vec![0.0, -1.0, 0.0], None), make_res(r, &tpc, &st0).unwrap(), tpc.clone(), None);
+    // a negative FIRST sample (never compared by the pinned code: the loop starts at i = 1)
+    let mut neg0 = SetSpeedTrainSim::new(pre_consist(&sim), st0, SpeedTrace::new(vec![0.0, 1.0, 2.0], vec![-0.5, 0.5, 0.5], None), make_res(r, &tpc, &st0).unwrap(), tpc.clone(), None);
+    ctx.checked("C14", "negative_speed_rejected");
+    if !matches!(guard(|| neg0.walk()), Some(Err(_))) {
+        ctx.fail("C14", "negative_speed_rejected", "neg0", "a trace whose FIRST sample is negative was not rejected".into(), json!({"time": [0.0, 1.0, 2.0], "speed": [-0.5, 0.5, 0.5]}));
+    }
     ctx.checked("C14", "negative_speed_rejected");
     let rr = guard(|| neg.walk());
     if !matches!(rr, Some(Err(_))) {
@@ -606,24 +612,37 @@ fn speed_limit_case(ctx: &mut Ctx, r: &mut Rng, max_steps: usize) {
     sim.fric_brake = FricBrake::new(uc::N * (mass_static * *r.pick(&[0.3, 0.6, 1.0])), uc::S * *r.pick(&[0.0, 30.0, 60.0]), uc::R * 0.5, None, None);
     sim.set_save_interval(None);
     // incremental path-extension schedule: whole path or link by link before the walk
-    let whole = r.chance(0.5);
+    // 0 = whole path at once, 1 = link by link before the walk, 2 = link by link DURING the walk
+    // (like a timed path from dispatch: the braking curve is rebuilt mid-run)
+    let mode = r.below(3);
+    let whole = mode == 0;
+    let mut pending: Vec<LinkIdx> = vec![];
     let okx = guard(|| -> anyhow::Result<()> {
-        if whole { sim.extend_path(&bu.net, &bu.route)?; } else { for li in &bu.route { sim.extend_path(&bu.net, &[*li])?; } }
+        match mode {
+            0 => sim.extend_path(&bu.net, &bu.route)?,
+            1 => { for li in &bu.route { sim.extend_path(&bu.net, &[*li])?; } }
+            _ => { sim.extend_path(&bu.net, &bu.route[..1])?; pending = bu.route[1..].to_vec(); }
+        }
         Ok(())
     });
-    if !matches!(okx, Some(Ok(()))) { ctx.count("train.sl.extend_failed"); return; }
-    sim.finish();
+    if !matches!(okx, Some(Ok(()))) {
+        ctx.count("train.sl.extend_failed");
+        if let Some(Err(e)) = &okx { ctx.sample("train.sl.extend_failed", json!(format!("{:?}", e).lines().take(4).collect::<Vec<_>>().join(" | ").chars().take(400).collect::<String>())); }
+        return;
+    }
+    ctx.count(&format!("train.sl.extend_mode.{}", mode));
+    if pending.is_empty() { sim.finish(); }
     if sim.path_tpc.offset_end().value < len + 400.0 { ctx.count("train.sl.route_too_short"); return; }
     let Some(res) = make_res(r, &sim.path_tpc, &st0) else { return; };
     sim.train_res = res;
     // braking points must be rebuilt with the real resistance model
     if !matches!(guard(|| sim.extend_path(&bu.net, &[])), Some(Ok(()))) { ctx.count("train.sl.recalc_failed"); return; }
     ctx.count("train.sl.cases");
-    let tpc = sim.path_tpc.clone();
-    let tpc_tok = tok_tpc_in(&tpc, &bu.tp);
+    let mut tpc = sim.path_tpc.clone();
+    let mut tpc_tok = tok_tpc_in(&tpc, &bu.tp);
     let input = json!({"kind": "speed_limit", "network": serde_json::to_value(&bu.net).unwrap(), "train_params": serde_json::to_value(&bu.tp).unwrap(),
         "route": bu.route.iter().map(|l| l.idx()).collect::<Vec<_>>(), "consist": serde_json::to_value(&sim.loco_con).unwrap(),
-        "fric_brake": serde_json::to_value(&sim.fric_brake).unwrap(), "train_res": serde_json::to_value(&sim.train_res).unwrap(), "state": serde_json::to_value(&st0).unwrap(), "extend": if whole { "whole" } else { "link_by_link" }});
+        "fric_brake": serde_json::to_value(&sim.fric_brake).unwrap(), "train_res": serde_json::to_value(&sim.train_res).unwrap(), "state": serde_json::to_value(&st0).unwrap(), "extend": if whole { "whole" } else if mode == 1 { "link_by_link" } else { "link_by_link_during_walk" }});
     // braking points invariants (C03: target <= limit everywhere)
     {
         let (pts, _) = bp_points(&sim.braking_points);
@@ -632,10 +651,26 @@ fn speed_limit_case(ctx: &mut Ctx, r: &mut Rng, max_steps: usize) {
         let tl = pts.iter().all(|p| p.2 <= p.1 && p.2 >= 0.0);
         if !dec || !tl { ctx.fail("C03", "braking_points_well_formed", "bp", format!("braking points: offsets decreasing={}, 0<=target<=limit={}", dec, tl), input.clone()); }
     }
-    let end = tpc.offset_end().value;
+    let mut end = tpc.offset_end().value;
     let ft1000 = 1000.0 * uc::FT.value;
     let mut n = 0usize;
     loop {
+        // mid-run path extension (mode 2): add the next link when the front is within 1.5 km of the end of the path
+        if !pending.is_empty() && sim.state.offset.value > end - 1500.0 {
+            let li = pending.remove(0);
+            let okx = guard(|| sim.extend_path(&bu.net, &[li]));
+            if !matches!(okx, Some(Ok(()))) { ctx.count("train.sl.mid_run_extend_failed"); return; }
+            ctx.count("train.sl.mid_run_extend");
+            if pending.is_empty() { sim.finish(); }
+            tpc = sim.path_tpc.clone();
+            tpc_tok = tok_tpc_in(&tpc, &bu.tp);
+            end = tpc.offset_end().value;
+            let (pts, _) = bp_points(&sim.braking_points);
+            ctx.checked("C03", "braking_points_well_formed");
+            if !(pts.windows(2).all(|w| w[1].0 <= w[0].0) && pts.iter().all(|p| p.2 <= p.1 && p.2 >= 0.0)) {
+                ctx.fail("C03", "braking_points_well_formed", "bp-mid-run", "braking points after a mid-run extension: offsets not decreasing or target > limit".into(), input.clone());
+            }
+        }
         let cond = sim.state.offset.value < end - ft1000 || (sim.state.offset.value < end && sim.state.speed.value != 0.0);
         ctx.op("C03", "walk_cond", &format!("{} {}", f(end), tok_state(&sim.state)), &format!("ok {}", b(cond)));
         if !cond { break; }
@@ -700,7 +735,15 @@ fn speed_limit_case(ctx: &mut Ctx, r: &mut Rng, max_steps: usize) {
                 oracle_locate(ctx, &step_id, &tpc, &s, &input);
                 oracle_levels(ctx, &step_id, &sim.loco_con, &pre.loco_con, &s, &p, dt, &input);
             }
-            Some(Err(_)) => { ctx.count("train.sl.step_err"); return; }
+            Some(Err(e)) => {
+                ctx.count("train.sl.step_err");
+                let msg = format!("{:?}", e);
+                let class = if msg.contains("sufficient power to move") { "no_power_to_move" } else if msg.contains("Insufficient braking force") { "insufficient_braking_force" }
+                    else if msg.contains("Too much force requested from friction brake") { "fric_brake_over_max" } else if msg.contains("larger than max") { "whl_power_limit" } else { "other" };
+                ctx.count(&format!("train.sl.step_err.{}", class));
+                if class == "other" { ctx.sample("train.sl.step_err_other", json!(msg.chars().take(500).collect::<String>())); }
+                return;
+            }
             None => {
                 ctx.count("train.sl.step_panic");
                 ctx.fail("C03", "no_panic", &step_id, format!("speed-limited step panicked: {}", last_panic()), input.clone());
@@ -764,7 +807,7 @@ fn calc_idx_case(ctx: &mut Ctx, r: &mut Rng) {
 }
 
 pub fn run(ctx: &mut Ctx, r: &mut Rng, tier: &str) {
-    let (np, nbad, nss, nsl, nidx, steps, slsteps) = if tier == "thorough" { (400, 200, 60, 60, 4000, 400, 3000) } else { (40, 20, 6, 6, 400, 150, 900) };
+    let (np, nbad, nss, nsl, nidx, steps, slsteps) = if tier == "thorough" { (400, 200, 60, 60, 4000, 400, 3000) } else { (40, 20, 6, 8, 400, 150, 1200) };
     for i in 0..np { let mut rr = r.fork(); let _ = path_case(ctx, &mut rr, i % 2 == 0, false); }
     for _ in 0..nbad { let mut rr = r.fork(); bad_route_case(ctx, &mut rr); }
     for _ in 0..nidx { let mut rr = r.fork(); calc_idx_case(ctx, &mut rr); }
